@@ -2,6 +2,8 @@
 generators, implementation runner, Gallina encoding, property oracle."""
 import functools
 import math
+import os
+import random
 import time
 from fractions import Fraction as F
 
@@ -590,6 +592,63 @@ def gen_rel(rng, tier):
                 const=(rng.random() < 0.25))
 
 
+def gen_geom(rng, tier, pre_kind=None):
+    """the geometry is changed in place (region / mesh / field level) and THEN a norm is assigned as a
+    function of position: it has to be evaluated at the cell centres the mesh reports now"""
+    while True:
+        p1, p2, n = gen_mesh(rng, tier)
+        if len(n) <= 3:
+            break
+    nd = len(n)
+    kinds = ["region_scale", "region_scale", "region_translate", "mesh_scale", "mesh_translate"]
+    if nd >= 2:
+        kinds += ["region_rotate90", "mesh_rotate90", "field_rotate90"]
+    kind = pre_kind if pre_kind in kinds else rng.choice(kinds)
+    k = rng.choice([1, 2, 3, 3, 4])
+    pre = dict(kind=kind)
+    if kind.endswith("scale"):
+        pre["factor"] = (S(rng.choice([F(2), F(1, 2), F(4), F(3), F(3, 2)])) if rng.random() < 0.6 else
+                         [S(rng.choice([F(1), F(2), F(1, 2), F(3)])) for _ in n])
+        if isinstance(pre["factor"], list) and all(F(x) == 1 for x in pre["factor"]):
+            pre["factor"][0] = "2/1"
+    elif kind.endswith("translate"):
+        pre["vector"] = [S(F(rng.randint(-40, 40), 4)) for _ in n]
+        if not any(F(x) for x in pre["vector"]):
+            pre["vector"][0] = "5/2"
+    else:
+        a1, a2 = rng.sample(range(nd), 2)
+        pre["ax"] = [a1, a2]
+        pre["k"] = rng.choice([1, 1, 2, 3])
+        if kind in ("mesh_rotate90", "region_rotate90"):
+            # same cell count along both axes: the array still fits the rotated mesh and the cells of the
+            # rotated region stay dyadic
+            cw = abs(F(p2[a2]) - F(p1[a2])) / n[a2]
+            n[a2] = n[a1]
+            p2[a2] = S(F(p1[a2]) + n[a2] * cw * (1 if F(p2[a2]) > F(p1[a2]) else -1))
+        if kind == "field_rotate90":
+            k = rng.choice([1, nd])
+    ncell = math.prod(n)
+    forms = dict(cform=rng.choice(CFORMS), ret=rng.choice(RETS))
+    sk = rng.choice(["affine", "affine", "sumsq", "step"])
+    if sk == "affine":
+        cs = [F(rng.randint(-8, 8), 4) for _ in n]
+        if not any(cs):
+            cs[0] = F(3, 4)
+        spec = dict(kind="affine", c0=S(F(rng.randint(0, 48), 4)), cs=[S(x) for x in cs], shift=True, **forms)
+    elif sk == "sumsq":
+        spec = dict(kind="sumsq", c0=S(rng.choice([F(0), F(1), F(3, 4)])), **forms)
+    else:
+        spec = dict(kind="step", ax=rng.randrange(nd), x0=None, lo=S(rng.choice([F(0), F(1), F(3, 2)])),
+                    hi=S(rng.choice([F(2), F(5)])), **forms)
+    ops = [dict(op="setnorm", spec=spec)]
+    if rng.random() < 0.3:
+        ops.append(dict(op="validnorm"))
+    vr = rng.random()
+    v0 = dict(kind="all", form="default") if vr < 0.6 else dict(kind="arr", l=[rng.random() < 0.7 for _ in range(ncell)])
+    return dict(kind="hist", mode="geom", p1=p1, p2=p2, n=n, nvdim=k, unit=rng.choice(UNITS),
+                vals=flat(gen_cells(rng, ncell, k, "std")), norm0=None, v0=v0, ops=ops, bad=False, pre=pre)
+
+
 def gen_big(rng):
     """a mesh with more than 100000 cells and a callable norm that reduces over the point's components
     (oracle only: no Coq literal of that size is written)"""
@@ -612,46 +671,134 @@ def gen_rejected(rng):
                 bad=rng.choice(["str", "shape", "vector"]))
 
 
+def _pick(gen, pred, count, limit=4000):
+    out = []
+    for _ in range(limit):
+        c = gen()
+        if pred(c):
+            out.append(c)
+            if len(out) == count:
+                break
+    return out
+
+
+def _cells_of(c):
+    k = c["nvdim"]
+    v = [F(x) for x in c["vals"]]
+    return [v[j:j + k] for j in range(0, len(v), k)]
+
+
+def _has(c, op):
+    return any(o["op"] == op for o in c["ops"])
+
+
+def core_cases():
+    """DIRECTED CORE: the same list in every run, tier and seed (own fixed generator).  One group per
+    mechanism / blind spot that a seeded change of rounds a-e went through (seeded/C15-*/meta.json)."""
+    r = random.Random(424242)
+    t = "quick"
+    core = []
+    for k in (1, 2, 3, 4):
+        core.append(dict(kind="hist", mode="std", p1=["0/1"], p2=["2/1"], n=[2], nvdim=k, unit="T",
+                         vals=flat([[F(0)] * k, [F(3)] + [F(0)] * (k - 1)]),
+                         norm0=dict(kind="const", t="5/1", form="float"), v0=dict(kind="norm"), ops=[], bad=False))
+    std = lambda: gen_hist(r, t, "std")                                            # noqa: E731
+    # a1: every cell within delta of its target (constant / array / callable specs, all scales)
+    core += [gen_near(r, t) for _ in range(28)]
+    # a2: integer dtypes whose squares overflow
+    core += [gen_intfield(r, t) for _ in range(20)]
+    # a3: a tiny COMPONENT (<= 1e-8) in a vector of ordinary length (orientation is per cell, not per component)
+    for tiny in (5e-9, -3e-10, 1e-8, 2e-12):
+        for vec in ([tiny, 3.0, 4.0], [1.5, tiny], [0.0, 12.0, tiny, 5.0], [tiny, 2.5e-3, 6e-3]):
+            core.append(dict(kind="rel", nvdim=len(vec), vals=[S(x) for x in vec + [2.0] * len(vec)],
+                             ts=[S(1.0), S(2.0)], const=False))
+    core += [gen_rel(r, t) for _ in range(16)]
+    # b1: in-place writes between reads / assignments (no stale lengths)
+    core += [gen_inplace(r, t) for _ in range(30)]
+    # b2: scalar fields with exact zeros given a norm
+    core += _pick(std, lambda c: c["nvdim"] == 1 and (c["norm0"] or _has(c, "setnorm")) and
+                  any(not any(v) for v in _cells_of(c)), 8)
+    # b3: Field-typed specifications, in particular the same n on a larger region
+    for variant in ["larger"] * 8 + ["same", "same", "coarser", "coarser", "finer", "finer"]:
+        core += _pick(std, lambda c: len(c["n"]) <= 3, 1)
+        c = core[-1]
+        c["norm0"] = None
+        c["ops"] = [dict(op="setnorm", spec=fix_step(dict(kind="field", variant=variant, todo=True),
+                                                     c["p1"], c["p2"], c["n"], r))]
+    core += [gen_dictspec(r, t) for _ in range(4)]
+    # c1: requested norms far from the field's magnitude (product not representable, result is)
+    core += [gen_wide(r, t) for _ in range(20)]
+    # alias stream (round c): specifications / new values that are views of the field's own storage
+    core += [gen_alias(r, t) for _ in range(16)]
+    # c2, e2: non-zero vectors in cells marked not valid: orientation, norm getter, norm assignment
+    core += _pick(std, lambda c: c["v0"]["kind"] == "arr" and _has(c, "setnorm") and
+                  any((not b) and any(v) for b, v in zip(c["v0"]["l"], _cells_of(c))), 10)
+    # d1: vectors many orders of magnitude shorter than the longest one of the same field, given a norm
+    def spread(c):
+        ls = [sum(x * x for x in v) for v in _cells_of(c) if any(v)]
+        return len(ls) >= 2 and max(ls) > min(ls) * F(2) ** 120 and (c["norm0"] or _has(c, "setnorm"))
+    core += _pick(std, spread, 10)
+    # d2: a norm in the constructor followed by updates
+    core += _pick(std, lambda c: c["norm0"] is not None and _has(c, "update"), 10)
+    # e1 (and the threshold itself): lengths 1e-9 .. 1e-7 and exactly at / next to 1e-8
+    core += [gen_hist(r, t, "sub") for _ in range(14)] + [gen_hist(r, t, "thr") for _ in range(14)]
+    # e3: geometry changed in place, then a norm as function of position (every kind of change, 3 each)
+    for pk in ["region_scale", "region_translate", "region_rotate90", "mesh_scale", "mesh_translate", "mesh_rotate90",
+               "field_rotate90"]:
+        core += _pick(lambda: gen_geom(r, t, pk), lambda c: c["pre"]["kind"] == pk, 4 if pk.startswith("region") else 2)
+    # d3: meshes above 100000 cells with norm functions that reduce over the point (oracle only)
+    core.append(dict(kind="big", n=[400, 300], p1=[-25.0, 0.0], p2=[25.0, 37.5], nvdim=2, fn="norm_lt",
+                     vec=["3/1", "4/1", "0/1"]))
+    core.append(dict(kind="big", n=[48, 48, 48], p1=[-6.0, -6.0, -6.0], p2=[6.0, 6.0, 6.0], nvdim=1, fn="maxabs",
+                     vec=["-5/1", "0/1", "0/1"]))
+    # malformed / integer-dtype streams and general histories
+    core += [gen_hist(r, t, "std", bad=True) for _ in range(8)]
+    core += [gen_intdtype(r) for _ in range(2)] + [gen_rejected(r) for _ in range(3)]
+    core += [std() for _ in range(30)]
+    for c in core:
+        c["core"] = True
+    return core
+
+
 def generate(rng, tier):
     quick = tier == "quick"
+    core = core_cases()
+    if os.environ.get("VERIF_C15_CORE_ONLY"):
+        return core
     cases = []
-    # fixed corner cases first
-    for k in (1, 2, 3, 4):
-        cases.append(dict(kind="hist", mode="std", p1=["0/1"], p2=["2/1"], n=[2], nvdim=k, unit="T",
-                          vals=flat([[F(0)] * k, [F(3)] + [F(0)] * (k - 1)]),
-                          norm0=dict(kind="const", t="5/1", form="float"), v0=dict(kind="norm"), ops=[], bad=False))
-    for _ in range(330 if quick else 6000):
+    for _ in range(230 if quick else 5000):
         cases.append(gen_hist(rng, tier, "std"))
-    for _ in range(60 if quick else 1000):
+    for _ in range(35 if quick else 800):
         cases.append(gen_hist(rng, tier, "sub"))
-    for _ in range(60 if quick else 1000):
+    for _ in range(35 if quick else 800):
         cases.append(gen_hist(rng, tier, "thr"))
-    for _ in range(40 if quick else 700):
+    for _ in range(25 if quick else 500):
         cases.append(gen_hist(rng, tier, "std", bad=True))
-    for _ in range(160 if quick else 4000):
+    for _ in range(100 if quick else 3000):
         cases.append(gen_rel(rng, tier))
-    for _ in range(90 if quick else 1500):
+    for _ in range(45 if quick else 1200):
         cases.append(gen_near(rng, tier))
-    for _ in range(50 if quick else 800):
+    for _ in range(25 if quick else 600):
         cases.append(gen_intfield(rng, tier))
-    for _ in range(110 if quick else 1600):
+    for _ in range(60 if quick else 1300):
         cases.append(gen_inplace(rng, tier))
-    for _ in range(20 if quick else 200):
+    for _ in range(8 if quick else 150):
         cases.append(gen_dictspec(rng, tier))
-    for _ in range(50 if quick else 600):
+    for _ in range(25 if quick else 450):
         cases.append(gen_wide(rng, tier))
-    for _ in range(70 if quick else 900):
+    for _ in range(35 if quick else 700):
         cases.append(gen_alias(rng, tier))
-    for _ in range(2 if quick else 6):
+    for _ in range(40 if quick else 900):
+        cases.append(gen_geom(rng, tier))
+    for _ in range(0 if quick else 4):
         cases.append(gen_big(rng))
-    for _ in range(3):
+    for _ in range(1):
         cases.append(gen_intdtype(rng))
-    for _ in range(3):
-        cases.append(gen_rejected(rng))
-    # spread the expensive kinds evenly over the Coq shards
-    head, tail = cases[:4], cases[4:]
-    rng.shuffle(tail)
-    return head + tail
+    # the same cases in every run; only their ORDER is mixed with the random ones, so that the expensive
+    # kinds are spread evenly over the Coq shards
+    cases = core + cases
+    rng.shuffle(cases)
+    return cases
 
 
 # ------------------------------------------------------------------ implementation side
@@ -813,7 +960,8 @@ def spec_values(spec, mesh):
     if kind == "arr":
         return [F(t) for t in spec["ts"]]
     pmin = [F(float(x)) for x in np.atleast_1d(mesh.region.pmin)]
-    cell = [F(float(x)) for x in np.atleast_1d(mesh.cell)]
+    pmax = [F(float(x)) for x in np.atleast_1d(mesh.region.pmax)]
+    cell = [(hi - lo) / m for lo, hi, m in zip(pmin, pmax, n)]      # NOT mesh.cell: corners as read back now
     out = []
     if kind == "field":
         # the spec field sampled at the cell centre = value of the spec cell containing the centre
@@ -980,6 +1128,25 @@ def coq_vspec(v0):
     return "VNorm"
 
 
+def apply_pre(f, pre):
+    """change the geometry of the field's mesh in place, the way a user can"""
+    kind = pre["kind"]
+    dims = list(f.mesh.region.dims)
+    if kind.endswith("scale"):
+        arg = [fl(x) for x in pre["factor"]] if isinstance(pre["factor"], list) else fl(pre["factor"])
+    elif kind.endswith("translate"):
+        arg = [fl(x) for x in pre["vector"]]
+    target = {"region": f.mesh.region, "mesh": f.mesh, "field": f}[kind.split("_")[0]]
+    if kind.endswith("scale"):
+        st, _ = attempt(lambda: target.scale(arg, inplace=True))
+    elif kind.endswith("translate"):
+        st, _ = attempt(lambda: target.translate(arg, inplace=True))
+    else:
+        a1, a2 = dims[pre["ax"][0]], dims[pre["ax"][1]]
+        st, _ = attempt(lambda: target.rotate90(a1, a2, k=pre.get("k", 1), inplace=True))
+    return st
+
+
 def run_hist(c):
     rec = dict(kind="hist-" + c["mode"] + ("-bad" if c.get("bad") else ""), case=c, oracle=[], tags=[])
     n, k = c["n"], c["nvdim"]
@@ -1005,6 +1172,7 @@ def run_hist(c):
     rejected = st != "ok"
     nsetnorm = 0
     broken = False
+    geo = None
     rt = {}          # values only known at run time (specifications / updates taken from the field itself)
     if not rejected:
         if c["norm0"] is not None:
@@ -1022,6 +1190,23 @@ def run_hist(c):
         if not np.all(np.isfinite(f.array)):
             out.append("set-norm-result-not-finite")
             broken = True
+        if c.get("pre") and not broken:
+            st_pre = apply_pre(f, c["pre"])
+            nn = [int(x) for x in f.mesh.n]
+            if st_pre != "ok" or tuple(f.array.shape) != (*nn, k):
+                # refused, or the object is left with an array that no longer fits its mesh: nothing
+                # the property speaks about can be observed
+                rec.update(obs=dict(pre=st_pre, skipped=True), coq=None, key=f'geom/{c["pre"]["kind"]}/skipped',
+                           size=len(c["vals"]), nontrivial=False)
+                return rec
+            n, mesh = nn, f.mesh
+            geo = dict(p1=js([F(float(x)) for x in np.atleast_1d(mesh.region.pmin)]),
+                       p2=js([F(float(x)) for x in np.atleast_1d(mesh.region.pmax)]),
+                       vals=js(f.array.reshape(-1)), valid=[bool(b) for b in f.valid.reshape(-1)])
+            for o in c["ops"]:
+                if o["op"] == "setnorm":
+                    # thresholds / offsets of the position function refer to the geometry as it is NOW
+                    fix_step(o["spec"], geo["p1"], geo["p2"], n, random.Random(7))
         for oi, o in enumerate([] if broken else c["ops"]):
             before = f.array.copy()
             if o["op"] == "setnorm":
@@ -1133,9 +1318,14 @@ def run_hist(c):
             ops_c.append(f"PUpdate {g.ql(o['vals'])}")
         else:
             ops_c.append("PSetValid VNorm")
-    head = (f'CHist {g.ql(c["p1"])} {g.ql(c["p2"])} {g.zl(n)} {g.nat(k)} {g.opt(c["unit"], g.s)} '
-            f'{g.ql(c["vals"])} {"None" if c["norm0"] is None else "(Some " + coq_spec(c["norm0"]) + ")"} '
-            f'{coq_vspec(v0)} {g.lst(ops_c)} ')
+    if geo is not None:
+        # the model starts from the state read back after the in-place change of the geometry
+        head = (f'CHist {g.ql(geo["p1"])} {g.ql(geo["p2"])} {g.zl(n)} {g.nat(k)} {g.opt(c["unit"], g.s)} '
+                f'{g.ql(geo["vals"])} None (VArr {g.bl(geo["valid"])}) {g.lst(ops_c)} ')
+    else:
+        head = (f'CHist {g.ql(c["p1"])} {g.ql(c["p2"])} {g.zl(n)} {g.nat(k)} {g.opt(c["unit"], g.s)} '
+                f'{g.ql(c["vals"])} {"None" if c["norm0"] is None else "(Some " + coq_spec(c["norm0"]) + ")"} '
+                f'{coq_vspec(v0)} {g.lst(ops_c)} ')
     if broken:
         rec.update(obs=dict(nonfinite=True), coq=None)
     elif rejected:
@@ -1160,7 +1350,7 @@ def run_hist(c):
     rec["tags"] = sorted(set(rec["tags"]))
     nzero = sum(1 for j in range(0, len(c["vals"]), k) if all(F(x) == 0 for x in c["vals"][j:j + k]))
     skinds = "".join((o.get("spec", {}).get("kind", o["op"])[0]) for o in c["ops"])
-    extra = c.get("dtype") or (c.get("near") or {}).get("regime", "")
+    extra = c.get("dtype") or (c.get("near") or {}).get("regime", "") or (c.get("pre") or {}).get("kind", "")
     rec["key"] = (f'hist/{c["mode"]}{extra}/{len(n)}d/{k}/{(c["norm0"] or {}).get("kind")}/{v0["kind"]}/{skinds}/'
                   f'z{min(nzero, 2)}/{"rej" if rejected else "ok"}/{hash(tuple(c["vals"])) % 7}')
     rec["size"] = len(c["vals"]) * (1 + len(c["ops"]))
@@ -1320,7 +1510,7 @@ def run_case(c):
 
 
 def stats(records):
-    out = dict(hist=0, rel=0, rejected_histories=0, setnorm_ops=0, update_ops=0,
+    out = dict(directed_core=sum(1 for r in records if r["case"].get("core")), hist=0, rel=0, rejected_histories=0, setnorm_ops=0, update_ops=0,
                subthreshold_or_threshold=0, constructor_norm=0, valid_norm=0)
     for r in records:
         c = r["case"]
@@ -1332,6 +1522,7 @@ def stats(records):
             out["subthreshold_or_threshold"] += int(c["mode"] in ("sub", "thr"))
             out["near_target"] = out.get("near_target", 0) + int(c["mode"] == "near")
             out["integer_dtype"] = out.get("integer_dtype", 0) + int(c["mode"] == "int")
+            out["geometry_changed_in_place"] = out.get("geometry_changed_in_place", 0) + int(bool(c.get("pre")))
             out["inplace_writes"] = out.get("inplace_writes", 0) + sum(1 for o in c["ops"] if o["op"] == "inplace")
             allspecs = [c["norm0"]] + [o.get("spec") for o in c["ops"]]
             out["field_specs"] = out.get("field_specs", 0) + sum(1 for sp in allspecs if sp and sp["kind"] == "field")
